@@ -22,6 +22,11 @@ SCR=$(mktemp -d /tmp/cwmt-mut-XXXXXX)
 OUT=$(mktemp -d /tmp/cwmt-out-XXXXXX)
 trap 'rm -rf "$SCR" "$OUT"' EXIT
 git -C /repo archive HEAD | tar -x -C "$SCR"
+# git archive stamps every file with the commit time; cargo's freshness check is mtime based and
+# the target dirs are shared between invocations, so make the sources newer than any artefact
+# and drop this package's old artefacts
+find "$SCR" -type f -exec touch {} +
+( cd "$SCR" && CARGO_TARGET_DIR=/tmp/cwmt-base-target cargo clean -p cw-multi-test --offline >/dev/null 2>&1; CARGO_TARGET_DIR=/tmp/cwmt-mc-target cargo clean -p cw-multi-test --release --offline >/dev/null 2>&1 )
 if [ -n "$DEMO" ]; then
   # the demonstration must pass on the unchanged tree ...
   cp "$DEMO" "$SCR/tests/seed_demo.rs"
@@ -29,6 +34,7 @@ if [ -n "$DEMO" ]; then
   rm "$SCR/tests/seed_demo.rs"
 fi
 if ! patch -s -p1 -d "$SCR" < "$PATCH"; then echo "$NAME PATCH-FAILED"; exit 3; fi
+sleep 1; find "$SCR/src" -type f -exec touch {} +
 if [ -n "$DEMO" ]; then
   # ... and fail with the change
   cp "$DEMO" "$SCR/tests/seed_demo.rs"
